@@ -84,6 +84,35 @@ VRoot(r) == IF r.raised # "none" THEN "Total"
             ELSE IF ~r.obs.none /\ ~r.obs.in_bound THEN "ReturnedRootBelowBound"
             ELSE IF r.obs.none /\ RootMust(r) THEN "PlantedRootFound"
             ELSE "ok"
+(* ---- lll.reduce on full-rank 2 x 2 and 3 x 3 integer matrices (rows = basis vectors) ---- *)
+Det2(m) == m[1][1] * m[2][2] - m[1][2] * m[2][1]
+Det3(m) == m[1][1] * (m[2][2] * m[3][3] - m[2][3] * m[3][2]) - m[1][2] * (m[2][1] * m[3][3] - m[2][3] * m[3][1])
+           + m[1][3] * (m[2][1] * m[3][2] - m[2][2] * m[3][1])
+DetN(m) == IF Len(m) = 2 THEN Det2(m) ELSE Det3(m)
+\* m with row i replaced by v: by Cramer's rule v = x m has the integer solution x_i = det(m[i := v]) / det(m)
+WithRow(m, i, v) == [j \in 1..Len(m) |-> IF j = i THEN v ELSE m[j]]
+InLattice(m, v) == \A i \in 1..Len(m) : Abs(DetN(WithRow(m, i, v))) % Abs(DetN(m)) = 0
+Norm2(v) == LET RECURSIVE S(_)
+                S(j) == IF j = 0 THEN 0 ELSE v[j] * v[j] + S(j - 1)
+            IN S(Len(v))
+Comb(m, cs) == [j \in 1..Len(m[1]) |-> LET RECURSIVE S(_)
+                                            S(i) == IF i = 0 THEN 0 ELSE cs[i] * m[i][j] + S(i - 1)
+                                        IN S(Len(m))]
+Box(d) == IF d = 2 THEN {<<a, b>> : a \in (0 - 4)..4, b \in (0 - 4)..4} ELSE {<<a, b, c>> : a \in (0 - 4)..4, b \in (0 - 4)..4, c \in (0 - 4)..4}
+\* the shortest non-zero vector among the small combinations of the RETURNED basis (an upper bound of lambda_1 squared)
+Lambda2(m) == LET S == {Norm2(Comb(m, cs)) : cs \in Box(Len(m))} \ {0} IN CHOOSE x \in S : \A y \in S : x <= y
+Pow2N(d) == IF d = 2 THEN 2 ELSE 4
+VLll(r) ==
+  LET a == r.args.m
+      b == r.obs.m
+      d == Len(a)
+  IN IF r.raised # "none" THEN "Total"
+     ELSE IF Len(b) # d \/ \E i \in 1..d : Len(b[i]) # d THEN "LllShape"
+     ELSE IF Abs(DetN(b)) # Abs(DetN(a)) THEN "LllSameLattice"
+     ELSE IF \E i \in 1..d : ~InLattice(a, b[i]) THEN "LllSameLattice"
+     \* |b_1|^2 <= 2^(d-1) lambda_1^2 (the LLL guarantee for any delta >= 3/4)
+     ELSE IF Norm2(b[1]) > Pow2N(d) * Lambda2(b) THEN "LllFirstVectorShort"
+     ELSE "ok"
 VAux(r) == IF r.raised # "none" THEN "Total" ELSE IF ~r.obs.ok THEN "AuxFormula" ELSE "ok"
 Verdict(r) ==
   CASE r.ev = "inv" -> VInv(r)
@@ -100,6 +129,7 @@ Verdict(r) ==
     [] r.ev = "solve_big" -> VSolveBig(r)
     [] r.ev = "aux" -> VAux(r)
     [] r.ev = "root" -> VRoot(r)
+    [] r.ev = "lll" -> VLll(r)
     [] OTHER -> "UnknownEvent"
 TInit == tid = 1 /\ RegInit /\ n = 0 /\ k = 1
 TNext == /\ tid <= NRecs
